@@ -67,7 +67,7 @@ pub enum Loaded {
 
 /// Loading runs on a worker thread under a watchdog: a load that does not return within
 /// LOAD_TIMEOUT is reported as `Loop` (C04: loading terminates) and the worker is abandoned.
-const LOAD_TIMEOUT: std::time::Duration = std::time::Duration::from_secs(5);
+pub const LOAD_TIMEOUT: std::time::Duration = std::time::Duration::from_secs(5);
 static LOOPS: std::sync::atomic::AtomicUsize = std::sync::atomic::AtomicUsize::new(0);
 /// number of calls abandoned by the watchdog so far (each leaves a spinning worker behind)
 pub fn loops_seen() -> usize {
